@@ -69,6 +69,10 @@ type FS struct {
 	// on a real device does: windows that exist only while a flush is in progress become reachable.
 	SyncDelay time.Duration
 	syncCount int64
+	// FailWriteCall, when >= 0, makes the FailWriteCall-th data call on an open file (WriteAt / Write /
+	// Sync / Truncate, counted from 0 in WriteCalls) fail once.
+	FailWriteCall int
+	WriteCalls    int
 	// ReadDelay makes every sequential Read take this long (a slow device: recovery of a large
 	// database lasts a while).
 	ReadDelay time.Duration
@@ -79,7 +83,7 @@ func New() *FS { return FromImage(nil) }
 
 // FromImage returns a file system holding the given files.
 func FromImage(img map[string][]byte) *FS {
-	t := &FS{names: map[string]*node{}, base: map[string][]byte{}, locks: map[*node]bool{}, FailAfter: -1, FailCall: -1}
+	t := &FS{names: map[string]*node{}, base: map[string][]byte{}, locks: map[*node]bool{}, FailAfter: -1, FailCall: -1, FailWriteCall: -1}
 	for name, data := range img {
 		t.names[name] = &node{id: t.nextID, data: append([]byte(nil), data...)}
 		t.nextID++
@@ -133,7 +137,14 @@ func (t *FS) OpenHandles() int {
 
 func (t *FS) record(e Event) { t.events = append(t.events, e) }
 
-func (t *FS) failing() bool { return t.FailAfter >= 0 && len(t.events) >= t.FailAfter }
+func (t *FS) failing() bool {
+	n := t.WriteCalls
+	t.WriteCalls++
+	if t.FailWriteCall >= 0 && n == t.FailWriteCall {
+		return true
+	}
+	return t.FailAfter >= 0 && len(t.events) >= t.FailAfter
+}
 
 // tick counts a call and reports whether it is the one to fail.
 func (t *FS) tick() bool {
